@@ -75,7 +75,11 @@ RULE = (
     'uniform+arithmetic, rotated uniform, structured DRIVE, TernGrad): levels '
     'in {2,3,16} ({2,3} with arithmetic coding), key seed, one of 2 tree '
     'shapes, a pool of 4-6 client trees (generic / constant / all-zero dyadic '
-    'values) with weights, same operations. Non-trivial: >= 3 applies, some client '
+    'values) with weights, same operations. Half of the histories also run 1-3 '
+    'of their rounds (later rounds preferred) on a second algorithm / aggregator '
+    'object constructed with the same hyper-parameters, which lives through a '
+    'different sequence of calls, and demand the identical result (a round may '
+    'depend on nothing but its arguments). Non-trivial: >= 3 applies, some client '
     'takes part in >= 2 applies, and the history contains an effective branch '
     '(to a state other than the current one, followed by an apply) or a '
     'roundtrip followed by an apply; distinct = distinct canonical case JSON.')
@@ -309,6 +313,16 @@ def init_params(p):
           'b': jnp.asarray(np.float32(p[D] / 8.0))}
 
 
+def build_other_instance(alg, v):
+  """A second, separately constructed algorithm object with the same
+  hyper-parameters, built anew for every case that asks for it (~0.6 s).  A
+  round whose result depends on anything remembered inside the algorithm object
+  -- rather than on (server state, clients) -- gives a different answer on it,
+  because it has lived through a different sequence of calls: exactly one
+  warm-up round on a shifted initial state (see AlgorithmSystem)."""
+  return build_algorithm.__wrapped__(alg, v)
+
+
 class AlgorithmSystem:
   """Adapter: init() / make_args(op) / apply(state, args) / observe(args)."""
 
@@ -318,6 +332,18 @@ class AlgorithmSystem:
     nd = NUM_DOMAINS[self.v] if self.alg == 'agnostic' else 3
     self.datasets = [make_dataset(c['rows'], nd) for c in case['pool']]
     self.init_list = case['init']
+    self.other = None
+    if case.get('other_instance'):
+      # The other object's past: one round from the initial parameters shifted
+      # by +1 over the first three pool clients (a deterministic function of
+      # the case, so that a replay file reproduces on its own).
+      self.other = build_other_instance(self.alg, self.v)
+      shifted = [[x + 8 for x in p] for p in self.init_list]
+      if self.alg == 'hyp_cluster':
+        warm = self.other.init([init_params(p) for p in shifted])
+      else:
+        warm = self.other.init(init_params(shifted[0]))
+      self.other.apply(warm, self.make_args(['apply', [0, 1, 2], [11, 12, 13]]))
 
   def init(self):
     if self.alg == 'hyp_cluster':
@@ -334,6 +360,10 @@ class AlgorithmSystem:
   def apply(self, state, args):
     new_state, diagnostics = self.algorithm.apply(state, args)
     return new_state, {'state': new_state, 'diagnostics': diagnostics}
+
+  def apply_other(self, state, args):
+    new_state, diagnostics = self.other.apply(state, args)
+    return {'state': new_state, 'diagnostics': diagnostics}
 
   def check_output(self, args, out):
     # Which clients appear in the diagnostics is C01's business, not C10's.
@@ -384,6 +414,11 @@ class AggregatorSystem:
                                        case['seed'])
     self.trees = [make_tree(case['tree'], c['values']) for c in case['pool']]
     self.weights = [float(c['weight']) for c in case['pool']]
+    self.other = None
+    if case.get('other_instance'):
+      self.other = build_aggregator(case['system'], case['levels'], case['seed'])
+      # its past: one round over the first two pool clients
+      self.other.apply(self.make_args(['apply', [0, 1]]), self.other.init())
 
   def init(self):
     return self.aggregator.init()
@@ -397,6 +432,10 @@ class AggregatorSystem:
   def apply(self, state, args):
     aggregated, new_state = self.aggregator.apply(args, state)
     return new_state, {'aggregated': aggregated, 'state': new_state}
+
+  def apply_other(self, state, args):
+    aggregated, new_state = self.other.apply(args, state)
+    return {'aggregated': aggregated, 'state': new_state}
 
   def check_output(self, args, out):
     pass
@@ -477,6 +516,23 @@ def run_history(case):
                    before, 'argument_state_changed',
                    f'{where}: argument state after the second call')
       del new2, out2
+
+      if system.other is not None and step in case.get('other_steps', ()):
+        # the same (state, clients) on another object built with the same
+        # hyper-parameters: nothing but the arguments may influence a round
+        out_o = system.apply_other(e.state, args)
+        require_same(snapshot(out_o, 'output_leaf_deleted',
+                              f'{where}: other instance'),
+                     snap1, 'other_instance_of_the_algorithm_differs',
+                     f'{where}: same state and clients on a second algorithm '
+                     'object constructed with the same hyper-parameters')
+        require_same(snapshot(e.state, 'argument_leaf_deleted',
+                              f'{where}: argument state after the other '
+                              'instance ran'),
+                     before, 'argument_state_changed',
+                     f'{where}: argument state after the other instance ran')
+        extra.add('compared_with_other_instance')
+        del out_o
 
       new_shadow = None
       if e.shadow is not None:
@@ -574,6 +630,8 @@ def labels(case):
             'double_roundtrip'):
     if info[k]:
       ls.append(k)
+  if case.get('other_instance'):
+    ls.append('other_instance')
   if info['roundtrip_then_apply'] >= 1:
     ls.append('roundtrip_then_apply')
   if info['roundtrip_then_apply'] >= 2:
@@ -649,6 +707,20 @@ def ops_strategy(draw, tier, npool, allowed):
   return ops
 
 
+@st.composite
+def other_instance_fields(draw, ops):
+  """Half of the histories also run some of their rounds (later ones first in
+  the menu: the interesting rounds are those after the object has a past) on a
+  second object built with the same hyper-parameters."""
+  if not draw(st.booleans()):
+    return {}
+  applies = [i for i, o in enumerate(ops) if o[0] == 'apply']
+  menu = applies[1:][::-1] + applies[:1]
+  steps = draw(st.lists(st.sampled_from(menu), min_size=1, max_size=3,
+                        unique=True))
+  return {'other_instance': True, 'other_steps': sorted(steps)}
+
+
 def algorithm_strategy(alg):
 
   @st.composite
@@ -667,9 +739,11 @@ def algorithm_strategy(alg):
       pool.append({'rows': rows})
     k = draw(st.integers(2, 3)) if alg == 'hyp_cluster' else 1
     init = [[draw(st.integers(-8, 8)) for _ in range(D + 1)] for _ in range(k)]
-    return {'system': alg, 'variant': draw(st.integers(0, 2)), 'init': init,
+    case = {'system': alg, 'variant': draw(st.integers(0, 2)), 'init': init,
             'pool': pool,
             'ops': draw(ops_strategy(tier, npool, list(range(npool))))}
+    case.update(draw(other_instance_fields(case['ops'])))
+    return case
 
   return strategy
 
@@ -700,9 +774,11 @@ def aggregator_strategy(draw, tier):
   # arithmetic coding re-compiles its entropy kernel for every distinct number
   # of unique values: keep that number small there
   levels = draw(st.sampled_from([2, 3] if name == 'uniform_arith' else [2, 3, 16]))
-  return {'system': name, 'levels': levels,
+  case = {'system': name, 'levels': levels,
           'seed': draw(st.integers(0, 2**20)), 'tree': tree, 'pool': pool,
           'ops': ops}
+  case.update(draw(other_instance_fields(ops)))
+  return case
 
 
 def _agg_plan_adapter(fn):
